@@ -113,6 +113,11 @@ theorem step_frame (hw : Bool) (a : Nat) (i : Instr) (l l' : Loc) (pc pc' : Int)
 theorem step_frame_apps (hw : Bool) (a : Nat) (i : Instr) (s : State) (pc : Int) (b : Nat) (hb : b ≠ a) :
     (step hw a i s pc).st.apps b = s.apps b := step_apps_other hw a i s pc b hb
 
+/-- the link-layer bookkeeping and the shared-memory registry are never touched by an instruction -/
+theorem step_frame_global (hw : Bool) (a : Nat) (i : Instr) (s : State) (pc : Int) :
+    (step hw a i s pc).st.reserved = s.reserved ∧ (step hw a i s pc).st.registry = s.registry :=
+  step_reserved_registry hw a i s pc
+
 /-- a store changes exactly one cell: same length, every other position keeps its value -/
 theorem store_cell (hw a l l' pc pc' r ad ix) (h : stepLoc hw a (.store r ad ix) l pc = .ok l' pc') :
     ∃ v k arr p, l.ap.regs r = some v ∧ l.ap.regs ix = some k ∧ l.ap.arrays ad = some arr ∧
@@ -225,6 +230,21 @@ theorem run_fuel_mono (hw : Bool) (a : Nat) (prog : List Instr) (fuel k : Nat) (
     (h : (run hw a prog fuel s pc).out ≠ .outOfFuel) :
     run hw a prog (fuel + k) s pc = run hw a prog fuel s pc :=
   Exec.run_fuel_mono hw a prog fuel k s pc h
+
+/-- Repeated execution: several subroutines (each with its own step bound) run one after the other
+against the same application state.  All lemmas above are state-generic, so they apply to every
+subroutine of the sequence; in particular the whole sequence never touches another application. -/
+def runAll (hw : Bool) (a : Nat) (subs : List (List Instr × Nat)) (s : State) : State :=
+  subs.foldl (fun s pf => (run hw a pf.1 pf.2 s 0).s) s
+
+theorem runAll_frame_apps (hw : Bool) (a : Nat) (subs : List (List Instr × Nat)) (s : State) (b : Nat)
+    (hb : b ≠ a) : (runAll hw a subs s).apps b = s.apps b := by
+  unfold runAll
+  induction subs generalizing s with
+  | nil => rfl
+  | cons pf rest ih =>
+    simp only [List.foldl_cons]
+    rw [ih, run_apps_other hw a pf.1 pf.2 s 0 b hb]
 
 /-! ## Returned values -/
 
